@@ -344,11 +344,43 @@ def main():
     except CannotTranslate as e:
         print(f"CANNOT-TRANSLATE: {e}")
         return 3
+    # associated types: which `Rate` a codec belongs to, which codecs a `Rate` builds (they decide what the provided
+    # trait methods `supports` / `validate` / `encoder` / `decoder` resolve to)
+    assoc = []
+    try:
+        for file in ("src/rate/rate_high.rs", "src/rate/rate_low.rs", "src/rate/rate_default.rs"):
+            src = re.sub(r"//[^\n]*", "", open(f"{repo}/{file}").read())
+            for m in re.finditer(r"impl\s*<\s*E\s*:\s*Engine\s*>\s*(Rate|RateEncoder|RateDecoder)\s*<\s*E\s*>\s*for\s+(\w+)\s*<\s*E\s*>\s*\{", src):
+                trait, ty = m.group(1), m.group(2)
+                # the impl block up to its matching brace
+                i, d = m.end(), 1
+                while d and i < len(src):
+                    d += {"{": 1, "}": -1}.get(src[i], 0)
+                    i += 1
+                block = src[m.end():i]
+                # only the top level of the impl block
+                top, d2 = [], 0
+                for ch in block:
+                    if ch == "{":
+                        d2 += 1
+                    elif ch == "}":
+                        d2 -= 1
+                    elif d2 == 0:
+                        top.append(ch)
+                for am in re.finditer(r"type\s+(\w+)\s*=\s*(\w+)\s*<\s*E\s*>\s*;", "".join(top)):
+                    assoc.append((ty, trait, am.group(1), am.group(2)))
+        if len(assoc) != 12:
+            raise CannotTranslate(f"expected 12 associated types in the rate impls, found {len(assoc)}: {assoc}")
+    except CannotTranslate as e:
+        print(f"CANNOT-TRANSLATE: {e}")
+        return 3
     body = ",\n".join(f"  -- {doc}\n  ({lstr(n)}, {k}, {t})" for (n, k, t, doc) in entries)
     text = ("/- GENERATED by /verif/translate/rs2lean_glue.py from the current text of src/reed_solomon.rs, src/rate.rs,\n"
             "   src/rate/rate_high.rs, src/rate/rate_low.rs, src/rate/rate_default.rs — do not edit. -/\n"
             "import RSVerif.Model.RustGlue\n\nnamespace RS.SrcG\nopen RS.RustG\n\n"
-            "/-- (wrapper, number of parameters besides self, body) -/\ndef glue : List (String × Nat × G) := [\n" + body + "\n]\n\nend RS.SrcG\n")
+            "/-- (wrapper, number of parameters besides self, body) -/\ndef glue : List (String × Nat × G) := [\n" + body + "\n]\n\n"
+            "/-- `impl Trait<E> for Type<E> { type Name = Value<E>; }`: (Type, Trait, Name, Value) -/\n"
+            "def assocTypes : List (String × String × String × String) := [" + ", ".join(f"({lstr(a)}, {lstr(b)}, {lstr(c)}, {lstr(d)})" for a, b, c, d in assoc) + "]\n\nend RS.SrcG\n")
     old = None
     try:
         old = open(out).read()
